@@ -13,6 +13,7 @@ func main() {
 	report.Main(map[string]*report.Check{
 		"C01": c01(),
 		"C04": c04(),
+		"C06": c06(),
 		"C20": c20(),
 	})
 }
